@@ -23,20 +23,18 @@ Print Assumptions C08_atomic.
     link to a regular file, dangling link, device / pipe, directory) under each combination of faults (the directory
     refuses the temporary file, the destination cannot be created, the write is cut off, the device takes no data, the
     rename fails).  A destination that is absent, regular or a link to a regular file is never left half-written as long
-    as its directory takes the temporary file; with ONE fault of whatever kind nothing but a dangling link (whose target
-    did not exist) is; and the excluded outcome arises exactly when the write is cut off while the destination is
+    as its directory takes the temporary file; with ONE fault of whatever kind no destination is; and the excluded outcome arises exactly when the write is cut off while the destination is
     written directly. *)
 Theorem C08_kinds : forall feat src dest f k fl,
   let '(e, f') := compile_cmd feat src dest f (outcome_of k fl) in
   (e = 0 -> exists im, assembles feat src = Ok im /\ f' dest = Some (compile_bytes im)) /\
-  (e <> 0 -> (route_of k = Temp /\ temp_refused fl = false \/ single_fault fl /\ k <> KDangling) -> forall p, f' p = f p).
+  (e <> 0 -> (route_of k = Temp /\ temp_refused fl = false \/ single_fault fl) -> forall p, f' p = f p).
 Proof. exact compile_kinds. Qed.
 Print Assumptions C08_kinds.
 
 Theorem C08_truncated_iff : forall k fl n,
   outcome_of k fl = WWriteFailTruncated n <->
-  write_stops fl = Some n /\ create_refused fl = false /\
-  (k = KDangling \/ (route_of k = Temp /\ temp_refused fl = true)).
+  write_stops fl = Some n /\ create_refused fl = false /\ route_of k = Temp /\ temp_refused fl = true.
 Proof. exact truncated_iff. Qed.
 Print Assumptions C08_truncated_iff.
 
